@@ -32,8 +32,12 @@ struct Job {
     family: String,
     case: usize,
     schedule: Schedule,
-    /// Some(hash) = this is a determinism re-run that must reproduce the hash
-    verify: Option<String>,
+    /// Some((hash, clauses)) = this is a determinism re-run that must reproduce the hash - or, when the
+    /// first run violated a monitor, at least every violated clause (with real TLS the key material
+    /// differs between runs; a change to the code under test can make what an endpoint does with a
+    /// forged datagram depend on it, so the hash may legitimately differ while the violation is
+    /// reproduced; a violation that is NOT reproduced is a machinery error, never a verdict)
+    verify: Option<(String, Vec<String>)>,
 }
 
 #[derive(Clone, Debug, Default)]
@@ -44,6 +48,8 @@ struct JobResult {
     violations: Vec<(String, String)>,
     crashed: bool,
     end_t: u64,
+    /// what the execution exercised (monitors::facts)
+    facts: Vec<(String, u64)>,
 }
 
 fn trace_hash(case: &Case, r: &record::Record) -> u128 {
@@ -145,7 +151,18 @@ fn run_job(cases: &BTreeMap<String, Vec<Case>>, job: &Job, monitors: &[String]) 
             violations.push(("machinery.forge_vacuous".into(), "no forged datagram was produced".into()));
         }
     }
-    JobResult { n_dgrams: r.dgrams.iter().filter(|d| d.idx != u32::MAX).count(), hash: format!("{:032x}", trace_hash(case, &r)), outcome: outcome_class(&r), violations, crashed: false, end_t: r.end_t }
+    let facts: Vec<(String, u64)> = monitors::facts(&r).into_iter().map(|(k, v)| (k.to_string(), v)).collect();
+    let fact = |name: &str| facts.iter().find(|f| f.0 == name).map_or(0, |f| f.1);
+    if job.schedule.is_empty() && r.panicked.is_none() && r.stalled.is_none() {
+        // vacuity guards on the fault-free run of scenarios built to reach a particular state
+        if case.scn.expect_amp_block && (fact("amp_limit_reached") == 0 || fact("amp_released") == 0) {
+            violations.push(("machinery.amp_vacuous".into(), format!("{}: the fault-free run does not show the server stopped at 3x the bytes received and released by a later client datagram ({:?})", case.scn.name, facts)));
+        }
+        if case.scn.retry != Retry::Off && fact("retry_taken_over") == 0 {
+            violations.push(("machinery.retry_vacuous".into(), format!("{}: the fault-free run shows no Retry taken over by the client ({:?})", case.scn.name, facts)));
+        }
+    }
+    JobResult { n_dgrams: r.dgrams.iter().filter(|d| d.idx != u32::MAX).count(), hash: format!("{:032x}", trace_hash(case, &r)), outcome: outcome_class(&r), violations, crashed: false, end_t: r.end_t, facts }
 }
 
 fn result_to_json(r: &JobResult) -> Json {
@@ -154,6 +171,7 @@ fn result_to_json(r: &JobResult) -> Json {
         .set("hash", r.hash.as_str())
         .set("outcome", r.outcome.as_str())
         .set("end_t", r.end_t)
+        .set("facts", Json::Arr(r.facts.iter().filter(|f| f.1 != 0).map(|f| Json::obj().set("k", f.0.as_str()).set("v", f.1)).collect()))
         .set("violations", Json::Arr(r.violations.iter().map(|(c, d)| Json::obj().set("clause", c.as_str()).set("detail", d.as_str())).collect()))
 }
 
@@ -165,6 +183,7 @@ fn result_from_json(j: &Json) -> JobResult {
         end_t: j.get("end_t").and_then(|x| x.as_i128()).unwrap_or(0) as u64,
         violations: j.get("violations").and_then(|x| x.as_arr()).map(|a| a.iter().map(|v| (v.get("clause").and_then(|x| x.as_str()).unwrap_or("").to_string(), v.get("detail").and_then(|x| x.as_str()).unwrap_or("").to_string())).collect()).unwrap_or_default(),
         crashed: false,
+        facts: j.get("facts").and_then(|x| x.as_arr()).map(|a| a.iter().map(|f| (f.get("k").and_then(|x| x.as_str()).unwrap_or("").to_string(), f.get("v").and_then(|x| x.as_i128()).unwrap_or(0) as u64)).collect()).unwrap_or_default(),
     }
 }
 
@@ -249,6 +268,10 @@ struct Shared {
     machinery: Vec<String>,
     samples: Vec<Json>,
     verify_counter: u64,
+    facts: BTreeMap<String, u64>,
+    per_scenario: BTreeMap<(String, usize), u64>,
+    /// violating executions whose re-run reproduced every violated clause with a different trace hash
+    divergent_reproduced: u64,
     deadline: std::time::Instant,
     capped: bool,
 }
@@ -261,7 +284,7 @@ fn children(case: &Case, parent: &Job, n_dgrams: usize) -> Vec<Job> {
     if parent.schedule.iter().any(|(_, a)| matches!(a, Action::BlackholeFrom(_))) {
         return out;
     }
-    for i in start..n_dgrams as u32 {
+    for i in start..(n_dgrams as u32).min(case.last_index.saturating_add(1)) {
         if depth < case.k {
             for a in &case.menu {
                 let mut s = parent.schedule.clone();
@@ -278,6 +301,10 @@ fn children(case: &Case, parent: &Job, n_dgrams: usize) -> Vec<Job> {
         }
     }
     out
+}
+
+fn case_list_idx(cs: &[Case], c: &Case) -> usize {
+    cs.iter().position(|x| std::ptr::eq(x, c)).unwrap_or(usize::MAX)
 }
 
 fn master(property: &str, out_path: &str) {
@@ -310,6 +337,9 @@ fn master(property: &str, out_path: &str) {
             machinery: Vec::new(),
             samples: Vec::new(),
             verify_counter: 0,
+            facts: BTreeMap::new(),
+            per_scenario: BTreeMap::new(),
+            divergent_reproduced: 0,
             deadline: t0 + std::time::Duration::from_secs_f64(wall),
             capped: false,
         }),
@@ -364,14 +394,23 @@ fn master(property: &str, out_path: &str) {
                     let case = &cases[&job.family][job.case];
                     if res.crashed {
                         g.violations.push((job.clone(), "exec.abort".into(), "the execution aborted the worker process (double panic / abort inside the endpoint)".into()));
-                    } else if let Some(expected) = &job.verify {
+                    } else if let Some((expected, clauses)) = &job.verify {
                         if *expected != res.hash {
-                            g.machinery.push(format!("nondeterminism: {} case {} schedule [{}] gave trace {} then {}", job.family, job.case, schedule_string(&job.schedule), expected, res.hash));
+                            let reproduced = !clauses.is_empty() && clauses.iter().all(|c| res.violations.iter().any(|(rc, _)| rc == c));
+                            if reproduced {
+                                g.divergent_reproduced += 1;
+                            } else {
+                                g.machinery.push(format!("nondeterminism: {} case {} schedule [{}] gave trace {} then {} (violated clauses of the first run: {:?}, of the re-run: {:?})", job.family, job.case, schedule_string(&job.schedule), expected, res.hash, clauses, res.violations.iter().map(|v| v.0.clone()).collect::<Vec<_>>()));
+                            }
                         }
                     } else {
                         g.executions += 1;
                         g.transitions += res.n_dgrams as u64;
                         g.hashes.insert(res.hash.clone());
+                        for (k, v) in &res.facts {
+                            *g.facts.entry(k.clone()).or_insert(0) += *v;
+                        }
+                        *g.per_scenario.entry((job.family.clone(), job.case)).or_insert(0) += 1;
                         g.outcomes.insert(res.outcome.clone());
                         let pf = g.per_family.entry(job.family.clone()).or_insert((0, 0, 0));
                         pf.0 += 1;
@@ -381,7 +420,10 @@ fn master(property: &str, out_path: &str) {
                         let verify = g.verify_counter % 97 == 1 || !res.violations.is_empty();
                         if verify {
                             let mut vj = job.clone();
-                            vj.verify = Some(res.hash.clone());
+                            let mut cl: Vec<String> = res.violations.iter().map(|v| v.0.clone()).collect();
+                            cl.sort();
+                            cl.dedup();
+                            vj.verify = Some((res.hash.clone(), cl));
                             g.queue.push_back(vj);
                         }
                         if g.samples.len() < 12 && (job.schedule.len() == case.k || g.samples.len() < 3) {
@@ -422,12 +464,20 @@ fn master(property: &str, out_path: &str) {
     let mut case_list = Vec::new();
     for (fam, cs) in cases.iter() {
         for c in cs {
-            case_list.push(Json::obj().set("family", fam.as_str()).set("scenario", c.scn.name.as_str()).set("k", c.k).set("menu", c.menu.iter().map(|a| a.code()).collect::<Vec<_>>()).set("extra", c.extra.iter().map(|a| a.code()).collect::<Vec<_>>()));
+            let n = g.per_scenario.get(&(fam.clone(), case_list_idx(cs, c))).copied().unwrap_or(0);
+            case_list.push(Json::obj().set("family", fam.as_str()).set("scenario", c.scn.name.as_str()).set("executions", n).set("k", c.k).set("menu", c.menu.iter().map(|a| a.code()).collect::<Vec<_>>()).set("extra", c.extra.iter().map(|a| a.code()).collect::<Vec<_>>()));
         }
     }
     rep.extra.push(("x_cases".into(), Json::Arr(case_list)));
     rep.extra.push(("x_distinct_outcome_classes".into(), Json::Int(g.outcomes.len() as i128)));
     rep.extra.push(("x_monitors".into(), Json::Str(monitors.clone())));
+    // number of executions in which each fact held (monitors::facts)
+    let mut fj = Json::obj();
+    for (k, v) in g.facts.iter() {
+        fj = fj.set(k.as_str(), *v);
+    }
+    rep.extra.push(("x_facts".into(), fj));
+    rep.extra.push(("x_violations_reproduced_with_divergent_trace".into(), Json::Int(g.divergent_reproduced as i128)));
     // shortest schedule first, one violation per (scenario, clause)
     let mut vs = g.violations.clone();
     vs.sort_by_key(|(j, c, _)| (j.schedule.len(), j.family.clone(), j.case, c.clone(), schedule_string(&j.schedule)));
@@ -534,6 +584,7 @@ fn main() {
                     println!("  ev t={} ep={} {:?}", e.t, e.ep, e.ev);
                 }
             }
+            println!("  facts {:?}", monitors::facts(&r).into_iter().filter(|f| f.1 != 0).collect::<Vec<_>>());
             let finite = !sched.iter().any(|(_, a)| matches!(a, Action::BlackholeFrom(_)));
             for (c, d) in families::run_monitors(&mons, case, &r, finite) {
                 println!("  VIOLATION {}: {}", c, d);
